@@ -189,356 +189,328 @@ Section Eval.
   Definition restore (before after : env) : env :=
     skipn (List.length after - List.length before) after.
 
-  (* R: result of evaluating an expression: outcome, environment, world *)
-  Definition R (A : Type) : Type := outcome F A * env * W.
+  (* Expressions return (outcome, world); only statements and blocks thread the environment.
+     (A block in EXPRESSION position may declare locals but must not assign to outer variables:
+     `assigns` rejects it as Stuck.  This keeps the environment out of the results of world calls,
+     so that symbolic evaluation of a body stays linear in its size.) *)
+  Definition RE (A : Type) : Type := outcome F A * W.
+  Definition Ans : Type := outcome F val * W.
 
-  Fixpoint eval_expr (fuel : nat) (e : expr) (en : env) (w : W) {struct fuel} : R val :=
+  Definition reout {A B} (o : outcome F A) : outcome F B :=
+    match o with
+    | Norm _ => Stuck "reout"
+    | Ret v => Ret v | Panic => Panic | Fail x => Fail x | Stuck s => Stuck s | NoFuel => NoFuel
+    end.
+
+  (* does a statement list assign to a variable it did not declare?  (syntactic, shallow: nested
+     expression blocks are checked when they are evaluated) *)
+  Fixpoint assigns (ss : list stmt) : bool :=
+    match ss with
+    | [] => false
+    | SAssign _ _ :: _ => true
+    | SOpAssign _ _ _ :: _ => true
+    | SWhile _ _ :: _ => true
+    | _ :: ss => assigns ss
+    end.
+  Definition block_assigns (b : block) : bool := match b with Blk ss _ => assigns ss end.
+
+  Fixpoint eval_expr (fuel : nat) (e : expr) (en : env) (w : W) {struct fuel} : RE val :=
     match fuel with
-    | O => (NoFuel, en, w)
+    | O => (NoFuel, w)
     | S fuel =>
       match e with
-      | ELit n => (Norm (VInt n), en, w)
-      | EBool b => (Norm (VBool b), en, w)
-      | EUnit => (Norm VUnit, en, w)
+      | ELit n => (Norm (VInt n), w)
+      | EBool b => (Norm (VBool b), w)
+      | EUnit => (Norm VUnit, w)
       | EVar x =>
           match lookup x en with
-          | Some v => (Norm v, en, w)
-          | None => (Norm (VCtor x []), en, w)      (* unit-like constructor / constant path *)
+          | Some v => (Norm v, w)
+          | None => (Norm (VCtor x []), w)      (* unit-like constructor / constant path *)
           end
       | EBin And a b =>
           match eval_expr fuel a en w with
-          | (Norm (VBool true), en, w) => eval_expr fuel b en w
-          | (Norm (VBool false), en, w) => (Norm (VBool false), en, w)
-          | (Norm _, en, w) => (Stuck "&& on non-boolean", en, w)
+          | (Norm (VBool true), w) => eval_expr fuel b en w
+          | (Norm (VBool false), w) => (Norm (VBool false), w)
+          | (Norm _, w) => (Stuck "&& on non-boolean", w)
           | r => r
           end
       | EBin Or a b =>
           match eval_expr fuel a en w with
-          | (Norm (VBool false), en, w) => eval_expr fuel b en w
-          | (Norm (VBool true), en, w) => (Norm (VBool true), en, w)
-          | (Norm _, en, w) => (Stuck "|| on non-boolean", en, w)
+          | (Norm (VBool false), w) => eval_expr fuel b en w
+          | (Norm (VBool true), w) => (Norm (VBool true), w)
+          | (Norm _, w) => (Stuck "|| on non-boolean", w)
           | r => r
           end
       | EBin op a b =>
           match eval_expr fuel a en w with
-          | (Norm va, en, w) =>
+          | (Norm va, w) =>
               match eval_expr fuel b en w with
-              | (Norm vb, en, w) => (binop_val op va vb, en, w)
+              | (Norm vb, w) => (binop_val op va vb, w)
               | r => r
               end
           | r => r
           end
       | ENot a =>
           match eval_expr fuel a en w with
-          | (Norm (VBool b), en, w) => (Norm (VBool (negb b)), en, w)
-          | (Norm _, en, w) => (Stuck "! on non-boolean", en, w)
+          | (Norm (VBool b), w) => (Norm (VBool (negb b)), w)
+          | (Norm _, w) => (Stuck "! on non-boolean", w)
           | r => r
           end
       | EIf c t e =>
           match eval_expr fuel c en w with
-          | (Norm (VBool true), en, w) => eval_block fuel t en w
-          | (Norm (VBool false), en, w) =>
+          | (Norm (VBool true), w) => eval_eblock fuel t en w
+          | (Norm (VBool false), w) =>
               match e with
-              | Some b => eval_block fuel b en w
-              | None => (Norm VUnit, en, w)
+              | Some b => eval_eblock fuel b en w
+              | None => (Norm VUnit, w)
               end
-          | (Norm _, en, w) => (Stuck "if on non-boolean", en, w)
+          | (Norm _, w) => (Stuck "if on non-boolean", w)
           | r => r
           end
       | EMatch s arms =>
           match eval_expr fuel s en w with
-          | (Norm v, en, w) => eval_arms fuel v arms en w
+          | (Norm v, w) => eval_arms fuel v arms en w
           | r => r
           end
       | ECall f args =>
           match eval_args fuel args en w with
-          | (Norm vs, en, w) =>
+          | (Norm vs, w) =>
               match builtin f vs with
-              | Some o => (o, en, w)
+              | Some o => (o, w)
               | None =>
                   match funs f with
                   | Some fa =>
-                      match eval_block fuel (fn_body fa) (rev (combine (fn_params fa) vs)) w with
-                      | (Norm v, _, w) => (Norm v, en, w)
-                      | (Ret v, _, w) => (Norm v, en, w)
-                      | (Panic, _, w) => (Panic, en, w)
-                      | (Fail x, _, w) => (Fail x, en, w)
-                      | (Stuck s, _, w) => (Stuck s, en, w)
-                      | (NoFuel, _, w) => (NoFuel, en, w)
+                      match exec_block fuel (fn_body fa) (rev (combine (fn_params fa) vs)) w
+                                       (fun v _ w => (Norm v, w)) with
+                      | (Ret v, w) => (Norm v, w)
+                      | r => r
                       end
-                  | None => let '(o, w) := prim f vs w in (o, en, w)
+                  | None => prim f vs w
                   end
               end
-          | (Ret v, en, w) => (Ret v, en, w)
-          | (Panic, en, w) => (Panic, en, w)
-          | (Fail x, en, w) => (Fail x, en, w)
-          | (Stuck s, en, w) => (Stuck s, en, w)
-          | (NoFuel, en, w) => (NoFuel, en, w)
+          | (o, w) => (reout o, w)
           end
       | EField a f =>
           match eval_expr fuel a en w with
-          | (Norm (VStruct _ fs), en, w) =>
+          | (Norm (VStruct _ fs), w) =>
               match lookup f fs with
-              | Some v => (Norm v, en, w)
-              | None => (Stuck "no such field", en, w)
+              | Some v => (Norm v, w)
+              | None => (Stuck "no such field", w)
               end
-          | (Norm v, en, w) => let '(o, w) := prim ("field:" ++ f)%string [v] w in (o, en, w)
+          | (Norm v, w) => prim ("field:" ++ f)%string [v] w
           | r => r
           end
       | ETuple es =>
           match eval_args fuel es en w with
-          | (Norm vs, en, w) => (Norm (VTuple vs), en, w)
-          | (Ret v, en, w) => (Ret v, en, w)
-          | (Panic, en, w) => (Panic, en, w)
-          | (Fail x, en, w) => (Fail x, en, w)
-          | (Stuck s, en, w) => (Stuck s, en, w)
-          | (NoFuel, en, w) => (NoFuel, en, w)
+          | (Norm vs, w) => (Norm (VTuple vs), w)
+          | (o, w) => (reout o, w)
           end
       | EStruct name fs =>
           match eval_fields fuel fs en w with
-          | (Norm vs, en, w) => (Norm (VStruct name vs), en, w)
-          | (Ret v, en, w) => (Ret v, en, w)
-          | (Panic, en, w) => (Panic, en, w)
-          | (Fail x, en, w) => (Fail x, en, w)
-          | (Stuck s, en, w) => (Stuck s, en, w)
-          | (NoFuel, en, w) => (NoFuel, en, w)
+          | (Norm vs, w) => (Norm (VStruct name vs), w)
+          | (o, w) => (reout o, w)
           end
-      | EBlock b => eval_block fuel b en w
-      | EForeign t => (Stuck ("foreign: " ++ t)%string, en, w)
+      | EBlock b => eval_eblock fuel b en w
+      | EForeign t => (Stuck ("foreign: " ++ t)%string, w)
       end
     end
 
-  with eval_args (fuel : nat) (es : list expr) (en : env) (w : W) {struct fuel} : R (list val) :=
+  (* a block in expression position *)
+  with eval_eblock (fuel : nat) (b : block) (en : env) (w : W) {struct fuel} : RE val :=
     match fuel with
-    | O => (NoFuel, en, w)
+    | O => (NoFuel, w)
+    | S fuel =>
+        if block_assigns b then (Stuck "assignment inside an expression block", w)
+        else exec_block fuel b en w (fun v _ w => (Norm v, w))
+    end
+
+  with eval_args (fuel : nat) (es : list expr) (en : env) (w : W) {struct fuel} : RE (list val) :=
+    match fuel with
+    | O => (NoFuel, w)
     | S fuel =>
       match es with
-      | [] => (Norm [], en, w)
+      | [] => (Norm [], w)
       | e :: es =>
           match eval_expr fuel e en w with
-          | (Norm v, en, w) =>
+          | (Norm v, w) =>
               match eval_args fuel es en w with
-              | (Norm vs, en, w) => (Norm (v :: vs), en, w)
+              | (Norm vs, w) => (Norm (v :: vs), w)
               | r => r
               end
-          | (Ret v, en, w) => (Ret v, en, w)
-          | (Panic, en, w) => (Panic, en, w)
-          | (Fail x, en, w) => (Fail x, en, w)
-          | (Stuck s, en, w) => (Stuck s, en, w)
-          | (NoFuel, en, w) => (NoFuel, en, w)
+          | (o, w) => (reout o, w)
           end
       end
     end
 
   with eval_fields (fuel : nat) (fs : list (string * expr)) (en : env) (w : W) {struct fuel}
-    : R (list (string * val)) :=
+    : RE (list (string * val)) :=
     match fuel with
-    | O => (NoFuel, en, w)
+    | O => (NoFuel, w)
     | S fuel =>
       match fs with
-      | [] => (Norm [], en, w)
+      | [] => (Norm [], w)
       | (f, e) :: fs =>
           match eval_expr fuel e en w with
-          | (Norm v, en, w) =>
+          | (Norm v, w) =>
               match eval_fields fuel fs en w with
-              | (Norm vs, en, w) => (Norm ((f, v) :: vs), en, w)
+              | (Norm vs, w) => (Norm ((f, v) :: vs), w)
               | r => r
               end
-          | (Ret v, en, w) => (Ret v, en, w)
-          | (Panic, en, w) => (Panic, en, w)
-          | (Fail x, en, w) => (Fail x, en, w)
-          | (Stuck s, en, w) => (Stuck s, en, w)
-          | (NoFuel, en, w) => (NoFuel, en, w)
+          | (o, w) => (reout o, w)
           end
       end
     end
 
   with eval_arms (fuel : nat) (v : val) (arms : list (pat * expr)) (en : env) (w : W)
-       {struct fuel} : R val :=
+       {struct fuel} : RE val :=
     match fuel with
-    | O => (NoFuel, en, w)
+    | O => (NoFuel, w)
     | S fuel =>
       match arms with
-      | [] => (Stuck "match: no arm applies", en, w)
+      | [] => (Stuck "match: no arm applies", w)
       | (p, body) :: arms =>
           match match_pat p v with
-          | Some bs =>
-              match eval_expr fuel body (bs ++ en) w with
-              | (o, en', w) => (o, restore en en', w)
-              end
+          | Some bs => eval_expr fuel body (bs ++ en) w
           | None => eval_arms fuel v arms en w
           end
       end
     end
 
-  with eval_block (fuel : nat) (b : block) (en : env) (w : W) {struct fuel} : R val :=
+  (* Blocks and statements are evaluated in continuation-passing style with respect to the
+     environment: `k` receives the environment and the world after a NORMAL completion; every other
+     outcome (return, panic, failure) is the answer at once.  (So the environment never travels
+     through the result of a world call.) *)
+  with exec_block (fuel : nat) (b : block) (en : env) (w : W) (k : val -> env -> W -> Ans)
+       {struct fuel} : Ans :=
     match fuel with
-    | O => (NoFuel, en, w)
+    | O => (NoFuel, w)
     | S fuel =>
       match b with
       | Blk ss tail =>
-          match eval_stmts fuel ss en w with
-          | (Norm tt, en', w) =>
-              match tail with
-              | Some e =>
-                  match eval_expr fuel e en' w with
-                  | (o, en'', w) => (o, restore en en'', w)
-                  end
-              | None => (Norm VUnit, restore en en', w)
-              end
-          | (Ret v, en', w) => (Ret v, restore en en', w)
-          | (Panic, en', w) => (Panic, restore en en', w)
-          | (Fail x, en', w) => (Fail x, restore en en', w)
-          | (Stuck s, en', w) => (Stuck s, restore en en', w)
-          | (NoFuel, en', w) => (NoFuel, restore en en', w)
-          end
+          exec_stmts fuel ss en w (fun en' w =>
+            match tail with
+            | Some e =>
+                match eval_expr fuel e en' w with
+                | (Norm v, w) => k v (restore en en') w
+                | r => r
+                end
+            | None => k VUnit (restore en en') w
+            end)
       end
     end
 
-  with eval_stmts (fuel : nat) (ss : list stmt) (en : env) (w : W) {struct fuel} : R unit :=
+  with exec_stmts (fuel : nat) (ss : list stmt) (en : env) (w : W) (k : env -> W -> Ans)
+       {struct fuel} : Ans :=
     match fuel with
-    | O => (NoFuel, en, w)
+    | O => (NoFuel, w)
     | S fuel =>
       match ss with
-      | [] => (Norm tt, en, w)
-      | s :: ss =>
-          match eval_stmt fuel s en w with
-          | (Norm tt, en, w) => eval_stmts fuel ss en w
-          | r => r
-          end
+      | [] => k en w
+      | s :: ss => exec_stmt fuel s en w (fun en w => exec_stmts fuel ss en w k)
       end
     end
 
-  with eval_stmt (fuel : nat) (s : stmt) (en : env) (w : W) {struct fuel} : R unit :=
+  with exec_stmt (fuel : nat) (s : stmt) (en : env) (w : W) (k : env -> W -> Ans)
+       {struct fuel} : Ans :=
     match fuel with
-    | O => (NoFuel, en, w)
+    | O => (NoFuel, w)
     | S fuel =>
       match s with
       | SLet xs e =>
           match eval_expr fuel e en w with
-          | (Norm v, en, w) =>
+          | (Norm v, w) =>
               match bind_names xs v with
-              | Some bs => (Norm tt, bs ++ en, w)
-              | None => (Stuck "let: pattern does not fit the value", en, w)
+              | Some bs => k (bs ++ en) w
+              | None => (Stuck "let: pattern does not fit the value", w)
               end
-          | (Ret v, en, w) => (Ret v, en, w)
-          | (Panic, en, w) => (Panic, en, w)
-          | (Fail x, en, w) => (Fail x, en, w)
-          | (Stuck s, en, w) => (Stuck s, en, w)
-          | (NoFuel, en, w) => (NoFuel, en, w)
+          | r => r
           end
       | SAssign x e =>
           match eval_expr fuel e en w with
-          | (Norm v, en, w) =>
+          | (Norm v, w) =>
               match update x v en with
-              | Some en' => (Norm tt, en', w)
+              | Some en' => k en' w
               | None =>
                   (* not a local: an assignment to a place of the world, e.g. "self.buf" *)
                   match prim ("set:" ++ x)%string (v :: match lookup "self" en with Some s => [s] | None => [] end) w with
-                  | (Norm _, w) => (Norm tt, en, w)
-                  | (Ret v, w) => (Ret v, en, w)
-                  | (Panic, w) => (Panic, en, w)
-                  | (Fail f, w) => (Fail f, en, w)
-                  | (Stuck s, w) => (Stuck s, en, w)
-                  | (NoFuel, w) => (NoFuel, en, w)
+                  | (Norm _, w) => k en w
+                  | r => r
                   end
               end
-          | (Ret v, en, w) => (Ret v, en, w)
-          | (Panic, en, w) => (Panic, en, w)
-          | (Fail x, en, w) => (Fail x, en, w)
-          | (Stuck s, en, w) => (Stuck s, en, w)
-          | (NoFuel, en, w) => (NoFuel, en, w)
+          | r => r
           end
       | SOpAssign op x e =>
           match eval_expr fuel e en w with
-          | (Norm v, en, w) =>
+          | (Norm v, w) =>
               match lookup x en with
               | Some old =>
                   match binop_val op old v with
                   | Norm r =>
                       match update x r en with
-                      | Some en' => (Norm tt, en', w)
-                      | None => (Stuck "op-assign: update", en, w)
+                      | Some en' => k en' w
+                      | None => (Stuck "op-assign: update", w)
                       end
-                  | Ret v => (Ret v, en, w)
-                  | Panic => (Panic, en, w)
-                  | Fail f => (Fail f, en, w)
-                  | Stuck s => (Stuck s, en, w)
-                  | NoFuel => (NoFuel, en, w)
+                  | o => (o, w)
                   end
-              | None => (Stuck "op-assign to a non-local", en, w)
+              | None => (Stuck "op-assign to a non-local", w)
               end
-          | (Ret v, en, w) => (Ret v, en, w)
-          | (Panic, en, w) => (Panic, en, w)
-          | (Fail x, en, w) => (Fail x, en, w)
-          | (Stuck s, en, w) => (Stuck s, en, w)
-          | (NoFuel, en, w) => (NoFuel, en, w)
+          | r => r
           end
+      | SExpr (EIf c t e) =>
+          (* statement-level if: its blocks may assign to outer variables *)
+          match eval_expr fuel c en w with
+          | (Norm (VBool true), w) => exec_block fuel t en w (fun _ en w => k en w)
+          | (Norm (VBool false), w) =>
+              match e with
+              | Some b => exec_block fuel b en w (fun _ en w => k en w)
+              | None => k en w
+              end
+          | (Norm _, w) => (Stuck "if on non-boolean", w)
+          | r => r
+          end
+      | SExpr (EBlock b) => exec_block fuel b en w (fun _ en w => k en w)
       | SExpr e =>
           match eval_expr fuel e en w with
-          | (Norm _, en, w) => (Norm tt, en, w)
-          | (Ret v, en, w) => (Ret v, en, w)
-          | (Panic, en, w) => (Panic, en, w)
-          | (Fail x, en, w) => (Fail x, en, w)
-          | (Stuck s, en, w) => (Stuck s, en, w)
-          | (NoFuel, en, w) => (NoFuel, en, w)
+          | (Norm _, w) => k en w
+          | r => r
           end
       | SWhile c body =>
           match eval_expr fuel c en w with
-          | (Norm (VBool true), en, w) =>
-              match eval_block fuel body en w with
-              | (Norm _, en, w) => eval_stmt fuel (SWhile c body) en w
-              | (Ret v, en, w) => (Ret v, en, w)
-              | (Panic, en, w) => (Panic, en, w)
-              | (Fail x, en, w) => (Fail x, en, w)
-              | (Stuck s, en, w) => (Stuck s, en, w)
-              | (NoFuel, en, w) => (NoFuel, en, w)
-              end
-          | (Norm (VBool false), en, w) => (Norm tt, en, w)
-          | (Norm _, en, w) => (Stuck "while on non-boolean", en, w)
-          | (Ret v, en, w) => (Ret v, en, w)
-          | (Panic, en, w) => (Panic, en, w)
-          | (Fail x, en, w) => (Fail x, en, w)
-          | (Stuck s, en, w) => (Stuck s, en, w)
-          | (NoFuel, en, w) => (NoFuel, en, w)
+          | (Norm (VBool true), w) =>
+              exec_block fuel body en w (fun _ en w => exec_stmt fuel (SWhile c body) en w k)
+          | (Norm (VBool false), w) => k en w
+          | (Norm _, w) => (Stuck "while on non-boolean", w)
+          | r => r
           end
-      | SReturn None => (Ret VUnit, en, w)
+      | SReturn None => (Ret VUnit, w)
       | SReturn (Some e) =>
           match eval_expr fuel e en w with
-          | (Norm v, en, w) => (Ret v, en, w)
-          | (Ret v, en, w) => (Ret v, en, w)
-          | (Panic, en, w) => (Panic, en, w)
-          | (Fail x, en, w) => (Fail x, en, w)
-          | (Stuck s, en, w) => (Stuck s, en, w)
-          | (NoFuel, en, w) => (NoFuel, en, w)
+          | (Norm v, w) => (Ret v, w)
+          | r => r
           end
-      | SPanic _ => (Panic, en, w)
+      | SPanic _ => (Panic, w)
       | SDebugAssert e =>
-          if release cfg then (Norm tt, en, w)
+          if release cfg then k en w
           else match eval_expr fuel e en w with
-               | (Norm (VBool true), en, w) => (Norm tt, en, w)
-               | (Norm (VBool false), en, w) => (Panic, en, w)
-               | (Norm _, en, w) => (Stuck "debug_assert on non-boolean", en, w)
-               | (Ret v, en, w) => (Ret v, en, w)
-               | (Panic, en, w) => (Panic, en, w)
-               | (Fail x, en, w) => (Fail x, en, w)
-               | (Stuck s, en, w) => (Stuck s, en, w)
-               | (NoFuel, en, w) => (NoFuel, en, w)
+               | (Norm (VBool true), w) => k en w
+               | (Norm (VBool false), w) => (Panic, w)
+               | (Norm _, w) => (Stuck "debug_assert on non-boolean", w)
+               | r => r
                end
-      | SForeign t => (Stuck ("foreign: " ++ t)%string, en, w)
+      | SForeign t => (Stuck ("foreign: " ++ t)%string, w)
       end
     end.
 
   (* run a whole function: `Ret v` at the boundary becomes the result *)
   Definition eval_fn (fuel : nat) (fa : fn_ast) (args : list val) (w : W) : outcome F val * W :=
-    match eval_block fuel (fn_body fa) (rev (combine (fn_params fa) args)) w with
-    | (Norm v, _, w) => (Norm v, w)
-    | (Ret v, _, w) => (Norm v, w)
-    | (o, _, w) => (o, w)
+    match exec_block fuel (fn_body fa) (rev (combine (fn_params fa) args)) w
+                     (fun v _ w => (Norm v, w)) with
+    | (Ret v, w) => (Norm v, w)
+    | r => r
     end.
 End Eval.
 
 Arguments eval_fn {F W}.
 Arguments eval_expr {F W}.
-Arguments eval_block {F W}.
-Arguments eval_stmt {F W}.
+Arguments exec_block {F W}.
+Arguments exec_stmt {F W}.
